@@ -173,6 +173,11 @@ func (s *Sorts) HeapMapDom(k string) string { // HMD_<k> : Array Int (Array k Bo
 	return n
 }
 
+func (s *Sorts) HeapMapLen() string { // HMLEN : Array Int Int, the number of keys of each map
+	s.heaps["HMLEN"] = "(Array Int Int)"
+	return "HMLEN"
+}
+
 func (s *Sorts) HeapNames() []string {
 	var ns []string
 	for n := range s.heaps {
